@@ -150,7 +150,7 @@ TSAN_ENV = {"TSAN_OPTIONS": "halt_on_error=1:exitcode=66:second_deadlock_stack=1
 
 plan("C11", "exploration",
      [worker("native", ["kernels", "C11"]),
-      worker("asan", ["kernels", "C11", "--reps", "2"], build="asan", tiers=("thorough",), env=ASAN_ENV, sanitizer="asan"),
+      worker("asan", ["kernels", "C11", "--reps", "2"], build="asan", env=ASAN_ENV, sanitizer="asan"),
       worker("miri", ["kernels", "C11", "--reps", "1", "--max-len", "70", "--offsets", "4", "--classes", "34"], build="miri", tiers=("thorough",), sanitizer="miri", watchdog=(3600, 3600))],
      ["value ranges are chosen so that no f32 intermediate overflows (|x| <= 1e17) and underflow is covered by an absolute term; NaN/inf inputs are C20's",
       "NEON code paths cannot run on this x86-64 host",
@@ -163,7 +163,7 @@ plan("C11", "exploration",
 
 plan("C12", "exploration",
      [worker("native", ["bq", "C12"]),
-      worker("asan", ["bq", "C12", "--random", "40", "--exhaustive", "9"], build="asan", tiers=("thorough",), env=ASAN_ENV, sanitizer="asan"),
+      worker("asan", ["bq", "C12", "--random", "40", "--exhaustive", "9"], build="asan", env=ASAN_ENV, sanitizer="asan"),
       worker("miri", ["bq", "C12", "--random", "3", "--exhaustive", "4", "--max-dim", "130", "--e2e", "0"], build="miri", tiers=("thorough",), sanitizer="miri", watchdog=(3600, 3600))],
      ["NEON conversion paths cannot run on this x86-64 host",
       "BQ-Cosine goes through fl(sqrt(L))^2: equal patterns give |d| <= 4*2^-23 rather than exactly 0; Euclidean/Manhattan are required to be exactly 0"],
